@@ -66,6 +66,9 @@ pub struct C09 {
     pub fault: Fault,
     /// processing delay pattern: item i takes delays[i % len] ticks
     pub delays: Vec<u16>,
+    /// a bounded upstream reports an exact size_hint (like a Vec or a range)
+    #[serde(default)]
+    pub hinted: bool,
 }
 
 pub const BOUNDED_N: usize = 400;
@@ -246,7 +249,8 @@ impl Scenario for C09 {
             3 => (0..5).map(|_| rng.below(12) as u16).collect(),
             _ => vec![7, 0, 0, 0],
         };
-        C09 { run_seed, cell, mode: SMode::draw(&mut rng), shape, w, n, fault, delays }
+        let hinted = rng.chance(0.5);
+        C09 { run_seed, cell, mode: SMode::draw(&mut rng), shape, w, n, fault, delays, hinted }
     }
 
     fn run_seed(&self) -> u64 {
@@ -440,7 +444,7 @@ impl Scenario for C09 {
                 f_val(x)
             });
             let src = PanickingSrc {
-                inner: Src { next: 0, n: sc.n.unwrap_or(usize::MAX), delay: Arc::new(vec![]) },
+                inner: Src { next: 0, n: sc.n.unwrap_or(usize::MAX), delay: Arc::new(vec![]), hinted: sc.hinted },
                 panic_at: src_panic_at,
             };
             let fm = f.clone();
@@ -649,6 +653,9 @@ pub struct PanickingSrc {
 
 impl Iterator for PanickingSrc {
     type Item = u64;
+    fn size_hint(&self) -> (usize, Option<usize>) {
+        self.inner.size_hint()
+    }
     fn next(&mut self) -> Option<u64> {
         if Some(self.inner.next) == self.panic_at {
             rt::log(Kind::Fault, 3, self.inner.next as u64);
